@@ -4,7 +4,7 @@
    [newer acc p]: p replaces acc iff acc's time <= p's time;
    [accepted_node st ops id]: the node points of the acknowledged requests for id, in delivery order. *)
 From Coq Require Import Permutation.
-From Verif Require Import Base.Bytes Store.GraphCount Store.GraphWalk Store.Model Store.ProofsRows Store.ProofsHash Store.ProofsTop.
+From Verif Require Import Base.Bytes Store.GraphCount Store.GraphWalk Store.Model Store.ProofsRows Store.ProofsHash Store.ProofsTop Store.ProofsSpec.
 From Verif Require Import Properties.StoreExample.
 Local Open Scope N_scope.
 
@@ -43,6 +43,14 @@ Theorem C01_batch_lookup :
     lookup (batch_rows skip db pts) t k = fold_left newer (sel t k (map normp (eff skip pts))) (lookup db t k).
 Proof. exact batch_rows_lookup. Qed.
 Print Assumptions C01_batch_lookup.
+
+(* the executable specification the checker evaluates on the dumps of a real instance (a fold of
+   [newest_step] over the acknowledged deliveries) reads, per identity, as that same fold of [newer] *)
+Theorem C01_spec_is_fold :
+  forall init ps t k,
+    lookup (fold_left newest_step ps init) t k = fold_left newer (sel t k (map normp ps)) (lookup init t k).
+Proof. exact spec_newest_lookup. Qed.
+Print Assumptions C01_spec_is_fold.
 
 (* that fold is THE point with the greatest timestamp *)
 Theorem C01_fold_is_max :
